@@ -179,13 +179,18 @@ func appendFollowingSibling(cursor store.Cursor, result []store.Cursor) []store.
 	}
 
 	children := parent.Children()
-	start := 0
+	start := -1
 
 	for i := range children {
 		if children[i].Pos() == cursor.Pos() {
 			start = i
 			break
 		}
+	}
+
+	if start < 0 {
+		// Attribute and namespace nodes have no siblings.
+		return result
 	}
 
 	return append(result, children[start+1:]...)
